@@ -40,6 +40,71 @@ OS_RENAMES = [
     ("path.go", "func RemoveAll(path string) error {", "func verifOrigRemoveAll(path string) error {"),
 ]
 
+NET_RENAMES = [
+    ("lookup.go", "func (r *Resolver) lookupIPAddr(ctx context.Context, network, host string) ([]IPAddr, error) {", "func (r *Resolver) verifOriglookupIPAddr(ctx context.Context, network, host string) ([]IPAddr, error) {"),
+    ("lookup_unix.go", "func (r *Resolver) lookupHost(ctx context.Context, host string) (addrs []string, err error) {", "func (r *Resolver) verifOriglookupHost(ctx context.Context, host string) (addrs []string, err error) {"),
+    ("dial.go", "func (d *Dialer) DialContext(ctx context.Context, network, address string) (Conn, error) {", "func (d *Dialer) verifOrigDialContext(ctx context.Context, network, address string) (Conn, error) {"),
+]
+
+# files that exist only in the overlay: export shims giving the harness the real unexported constructors
+REPO_SHIMS = {
+    "/repo/pkg/pdfcpu/primitives/zz_verif_export.go": """// added by /verif through go build -overlay; not part of the repository
+package primitives
+
+// VerifImageBoxFetch runs the real resource path of an image box (imageBoxRemoteURL,
+// remoteResource, imageBoxHTTPClient) for src and discards the body.
+func VerifImageBoxFetch(src string, timeoutSec int) error {
+	pdf := &PDF{Timeout: timeoutSec}
+	ib := &ImageBox{pdf: pdf, Src: src}
+	rc, err := ib.resource()
+	if rc != nil {
+		rc.Close()
+	}
+	return err
+}
+""",
+    "/repo/pkg/pdfcpu/sign/zz_verif_export.go": """// added by /verif through go build -overlay; not part of the repository
+package sign
+
+import (
+	"net/http"
+	"time"
+)
+
+// VerifRevocationHTTPClient is the real unexported constructor used for CRL and OCSP fetches.
+func VerifRevocationHTTPClient(t time.Duration, hosts []string) *http.Client {
+	return revocationHTTPClient(t, hosts)
+}
+
+// VerifValidateRevocationURLString is the real pre-flight check applied to every CRL/OCSP URL.
+func VerifValidateRevocationURLString(s string) error { return validateRevocationURLString(s) }
+""",
+}
+
+def patch_pkg(goroot, out, pkg, renames, zzsrc, replace):
+    here = os.path.dirname(os.path.abspath(__file__))
+    os.makedirs(os.path.join(out, pkg), exist_ok=True)
+    files = {}
+    for fn, old, new in renames:
+        p = os.path.join(goroot, "src", pkg, fn)
+        if fn not in files:
+            try:
+                files[fn] = open(p).read()
+            except OSError as e:
+                die(str(e))
+        if files[fn].count(old) != 1:
+            die("anchor %r matched %d times in %s" % (old, files[fn].count(old), p))
+        files[fn] = files[fn].replace(old, new)
+    for fn, src in files.items():
+        dst = os.path.join(out, pkg, fn)
+        with open(dst, "w") as f:
+            f.write(src)
+        replace[os.path.join(goroot, "src", pkg, fn)] = dst
+    zz = os.path.join(out, pkg, "zz_verif.go")
+    with open(zz, "w") as f:
+        f.write(open(os.path.join(here, zzsrc)).read())
+    replace[os.path.join(goroot, "src", pkg, "zz_verif.go")] = zz
+
 def main():
     if len(sys.argv) < 3:
         die("usage: mkoverlay.py <GOROOT> <outdir> [dst=src ...]")
@@ -67,6 +132,17 @@ def main():
     with open(zz, "w") as f:
         f.write(open(os.path.join(here, "zz_verif_os.go.txt")).read())
     replace[os.path.join(goroot, "src", "os", "zz_verif.go")] = zz
+    patch_pkg(goroot, out, "net", NET_RENAMES, "zz_verif_net.go.txt", replace)
+    repo = os.environ.get("VERIF_REPO", "/repo")
+    os.makedirs(os.path.join(out, "shims"), exist_ok=True)
+    for i, (dst, src) in enumerate(sorted(REPO_SHIMS.items())):
+        dst = dst.replace("/repo", repo, 1)
+        if not os.path.isdir(os.path.dirname(dst)):
+            die("shim target directory missing: " + os.path.dirname(dst))
+        sp = os.path.join(out, "shims", "shim%d.go" % i)
+        with open(sp, "w") as f:
+            f.write(src)
+        replace[dst] = sp
     for extra in sys.argv[3:]:
         dst, src = extra.split("=", 1)
         replace[dst] = src
